@@ -59,3 +59,15 @@ Proof.
   - cbn. unfold key_ok, nlen. cbn. repeat split; try lia; try reflexivity.
   - intros ks. apply Permutation_refl.
 Qed.
+
+(* ... and it is in decoder normal form with every decoder-side check passing: the hypotheses of
+   decode_dnf are satisfiable *)
+From Verif Require Import DecodeEnc.
+Lemma wit_dnf : dnf KChain wit_ms = true /\ dec_ok wit_env wit_ms /\ gv Tap wit_ke wit_ms = None.
+Proof.
+  split; [reflexivity|]. split; [|vm_compute; reflexivity].
+  cbn [dec_ok wit_ms]. unfold fa_ok, key_any, key_xonly.
+  repeat split; try (vm_compute; reflexivity); try (vm_compute; congruence).
+  - repeat constructor; vm_compute; reflexivity.
+  - left. vm_compute. reflexivity.
+Qed.
